@@ -462,9 +462,9 @@ func mkCase(s Spec, in []byte, rt, store bool) Case {
 func TestC18Analyzers(t *testing.T) {
 	names := analyzerNames()
 	vlib.Check(t, 9000, 40000, func(rt *rapid.T) {
-		name := rapid.SampledFrom(names).Draw(rt, "analyzer")
+		name := pickFrom(rt, "analyzer", names)
 		tx := genText(rt)
-		c := mkCase(Spec{Kind: "analyzer", Analyzer: name}, tx.Bytes, rapid.IntRange(0, 5).Draw(rt, "rt") == 0, rapid.Bool().Draw(rt, "store"))
+		c := mkCase(Spec{Kind: "analyzer", Analyzer: name}, tx.Bytes, pick(rt, "rt", 6) == 0, rapid.Bool().Draw(rt, "store"))
 		f, st := evaluate(c)
 		record("analyzers", c, &tx, f, st, "an:"+name)
 		vlib.Report(rt, ev, "case", c, f)
@@ -476,7 +476,7 @@ func TestC18Tokenizers(t *testing.T) {
 	vlib.Check(t, 2500, 15000, func(rt *rapid.T) {
 		tx := genText(rt)
 		tk := genTokenizer(rt)
-		c := mkCase(Spec{Kind: "tokenizer", Tokenizer: &tk}, tx.Bytes, rapid.IntRange(0, 9).Draw(rt, "rt") == 0, rapid.Bool().Draw(rt, "store"))
+		c := mkCase(Spec{Kind: "tokenizer", Tokenizer: &tk}, tx.Bytes, pick(rt, "rt", 10) == 0, rapid.Bool().Draw(rt, "store"))
 		f, st := evaluate(c)
 		record("tokenizers", c, &tx, f, st, "tok:"+tk.Name)
 		vlib.Report(rt, ev, "case", c, f)
@@ -489,7 +489,7 @@ func TestC18CharFilters(t *testing.T) {
 		tx := genText(rt)
 		tk := genTokenizer(rt)
 		n := 1
-		if rapid.IntRange(0, 4).Draw(rt, "twoCharFilters") == 0 {
+		if pick(rt, "twoCharFilters", 5) == 0 {
 			n = 2
 		}
 		var cfs []FilterSpec
@@ -499,7 +499,7 @@ func TestC18CharFilters(t *testing.T) {
 			cfs = append(cfs, cf)
 			subs = append(subs, "cf:"+cf.Name)
 		}
-		c := mkCase(Spec{Kind: "charfilter", Tokenizer: &tk, Char: cfs}, tx.Bytes, rapid.IntRange(0, 9).Draw(rt, "rt") == 0, rapid.Bool().Draw(rt, "store"))
+		c := mkCase(Spec{Kind: "charfilter", Tokenizer: &tk, Char: cfs}, tx.Bytes, pick(rt, "rt", 10) == 0, rapid.Bool().Draw(rt, "store"))
 		f, st := evaluate(c)
 		record("charfilters", c, &tx, f, st, subs...)
 		vlib.Report(rt, ev, "case", c, f)
@@ -514,7 +514,7 @@ func TestC18Filters(t *testing.T) {
 		tk := genTokenizer(rt)
 		s := Spec{Kind: "filter", Tokenizer: &tk}
 		subs := []string{}
-		if rapid.IntRange(0, 5).Draw(rt, "withCharFilter") == 0 {
+		if pick(rt, "withCharFilter", 6) == 0 {
 			cf := genCharFilter(rt)
 			s.Char = []FilterSpec{cf}
 			subs = append(subs, "cf:"+cf.Name)
@@ -526,12 +526,12 @@ func TestC18Filters(t *testing.T) {
 		if fl.Name == "shingle" || fl.Name == "porter" || fl.Name == "stemmer_ckb" || fl.Name == "stemmer_hi" || fl.Name == "cjk_bigram" {
 			preP = 1
 		}
-		if rapid.IntRange(0, preP).Draw(rt, "withPre") == 0 {
+		if pick(rt, "withPre", preP+1) == 0 {
 			p := genPre(rt, tx)
 			s.Pre = &p
 			subs = append(subs, "pre:"+p.Name)
 		}
-		c := mkCase(s, tx.Bytes, rapid.IntRange(0, 9).Draw(rt, "rt") == 0, rapid.Bool().Draw(rt, "store"))
+		c := mkCase(s, tx.Bytes, pick(rt, "rt", 10) == 0, rapid.Bool().Draw(rt, "store"))
 		f, st := evaluate(c)
 		record("filters", c, &tx, f, st, subs...)
 		vlib.Report(rt, ev, "case", c, f)
@@ -546,17 +546,17 @@ func TestC18Pipelines(t *testing.T) {
 		tk := genTokenizer(rt)
 		s := Spec{Kind: "pipeline", Tokenizer: &tk}
 		subs := []string{"tok:" + tk.Name}
-		for i, n := 0, rapid.IntRange(0, 2).Draw(rt, "charFilters"); i < n; i++ {
+		for i, n := 0, pick(rt, "charFilters", 3); i < n; i++ {
 			cf := genCharFilter(rt)
 			s.Char = append(s.Char, cf)
 			subs = append(subs, "cf:"+cf.Name)
 		}
-		for i, n := 0, rapid.IntRange(2, 4).Draw(rt, "filters"); i < n; i++ {
+		for i, n := 0, 2+pick(rt, "filters", 3); i < n; i++ {
 			fl := genFilter(rt, tx)
 			s.Filters = append(s.Filters, fl)
 			subs = append(subs, "pipe-flt:"+fl.Name)
 		}
-		c := mkCase(s, tx.Bytes, rapid.IntRange(0, 9).Draw(rt, "rt") == 0, rapid.Bool().Draw(rt, "store"))
+		c := mkCase(s, tx.Bytes, pick(rt, "rt", 10) == 0, rapid.Bool().Draw(rt, "store"))
 		f, st := evaluate(c)
 		record("pipelines", c, &tx, f, st, subs...)
 		vlib.Report(rt, ev, "case", c, f)
